@@ -9,8 +9,8 @@ TRUSTED = [
     "locked region (getOrCreate, save, recover, Cleanup incl. maxPayloadSize and the map rebuild, Release, rotate, markStale, CleanEmptyGenerations, "
     "ReleaseBuckets) or one atomic Add (tied to /repo by the correspondence run, not verified code)",
     "Go harness harness/cmd/hC18 (goroutines parked inside their loader callbacks, at verifhook.At in save, and a "
-    "NewCache run from the Released() callback of a wrapper bucket; stable points detected through the WaitsTotal "
-    "metric; export file cache/export_verif_c18.go)",
+    "NewCache run from the Released() / SetGeneration() callbacks of a wrapper bucket; stable points detected through "
+    "the WaitsTotal metric and, for a goroutine parked on the cleaner mutex, through runtime.Stack; export file cache/export_verif_c18.go)",
     "wg.Done() merged into the locked region before it; Cleaner.Cleanup's getSize+markStale taken as one step; "
     "float64 ratios 0.05 modelled as integer division by 20 (exact below 2^50); uint64 sizes as Z",
 ]
@@ -25,7 +25,9 @@ ASSUME = [
 ]
 RULE = ("event lists on the real cache package, model evaluated in Coq on the same list: exhaustive release subsets "
         "(every subset of 1..5 (thorough 6) caches, every release order for <= 3, and each subset again with a NewCache "
-        "landing between ReleaseBuckets' unlocked scan and its locked removal), random sequential op lists "
+        "landing between ReleaseBuckets' unlocked scan and its locked removal), rotations (Rotate and markStale's) from "
+        "every SetGeneration position of which a NewCache is started (AddBucket must block on the cleaner lock), "
+        "random sequential op lists "
         "(get/get-with-error/panic/new/release/rotate/cleanup/gc), random schedules with creators parked inside "
         "their loaders or at the schedule point after save's unlock while other goroutines look up / wait / clean / "
         "rotate / release / drop generations, boundary schedules (sizes and limits multiples of 100), payload-rebuild "
